@@ -55,13 +55,14 @@ type mConn struct {
 }
 
 type c16 struct {
-	t     *testing.T
-	w     *sim.World
-	m     *sim.Model
-	rng   *rand.Rand
-	rec   *sim.Rec
-	conns []*mConn
-	peers []*tcpPeer
+	bindDefect string
+	t          *testing.T
+	w          *sim.World
+	m          *sim.Model
+	rng        *rand.Rand
+	rec        *sim.Rec
+	conns      []*mConn
+	peers      []*tcpPeer
 }
 
 func (x *c16) liveConn(pred func(c *mConn) bool) *mConn {
@@ -285,7 +286,17 @@ func (x *c16) bind(owner *sim.RawClient, id uint32, user string) (code int, data
 	b.AddU32(wire.AttrConnectionID, id)
 	cred := *owner
 	cred.User, cred.Pass = user, x.w.Cfg.Users[user]
-	cred.AddAuth(b)
+	switch x.bindDefect {
+	case "no-credentials":
+	case "wrong-password":
+		cred.Pass += "x"
+		cred.AddAuth(b)
+	case "bad-nonce":
+		cred.Nonce = "0" + cred.Nonce + "Z"
+		cred.AddAuth(b)
+	default:
+		cred.AddAuth(b)
+	}
 	_, _ = conn.Write(b.Bytes())
 	x.w.Settle()
 	got, _ := conn.ReadAvailable()
@@ -317,7 +328,7 @@ func (x *c16) opBind() {
 		return
 	}
 	age := time.Since(mc.created)
-	variant := pick(x.rng, []string{"right", "right", "right", "wrong-id", "wrong-user", "repeat"})
+	variant := pick(x.rng, []string{"right", "right", "right", "wrong-id", "wrong-user", "repeat", "no-credentials", "wrong-password", "bad-nonce"})
 	if mc.bound && variant == "right" {
 		variant = "repeat"
 	}
@@ -334,7 +345,11 @@ func (x *c16) opBind() {
 			user = "alice"
 		}
 	}
+	if variant == "no-credentials" || variant == "wrong-password" || variant == "bad-nonce" {
+		x.bindDefect = variant
+	}
 	code, data, rest := x.bind(mc.owner, id, user)
+	x.bindDefect = ""
 	x.rec.Tracef("ConnectionBind(id=%d %s age=%v) -> %d", id, variant, age.Round(time.Second), code)
 	x.rec.FP("bind/%s/age<=29s=%v/%d", variant, age <= 29*time.Second, code)
 	switch {
